@@ -94,3 +94,44 @@ Lemma whole_life :
               monitors_ok s = true
   | None => False end.
 Proof. vm_compute. repeat split. Qed.
+
+(* ---- the same as statements about reachable states *)
+Lemma run_Reach B d l : forall s s', Reach B d s -> run B d s l = Some s' -> Reach B d s'.
+Proof.
+  induction l as [|a l IH]; cbn [run]; intros s s' R H; [inversion H; subst; exact R|].
+  destruct (step B d s a) as [s1|] eqn:E; [|discriminate]. eapply IH; [eapply RS; eauto | exact H].
+Qed.
+Lemma witness B d l (Q : st -> Prop) :
+  match run B d (init B) l with Some s => Q s | None => False end -> exists s, Reach B d s /\ Q s.
+Proof.
+  destruct (run B d (init B) l) as [s|] eqn:E; [|tauto]. intros H. exists s. split; auto.
+  eapply run_Reach; [apply R0 | exact E].
+Qed.
+
+Lemma without_delay_use_after_free : exists s, Reach 2 false s /\ bad_uaf (F s) = true.
+Proof. apply (witness 2 false sched_nodelay). pose proof nodelay_uaf as H. destruct (run 2 false (init 2) sched_nodelay); tauto. Qed.
+Lemma len_below_abstract_length :
+  exists s, Reach 2 true s /\ cp (C s) = CIdle /\ cop (C s) = OLen /\ cres (C s) < glen0 (G s) /\ cres (C s) < length (absq (G s)).
+Proof. apply (witness 2 true sched_len). vm_compute. repeat split; repeat constructor. Qed.
+Lemma peek_none_on_nonempty :
+  exists s, Reach 2 true s /\ cp (C s) = CIdle /\ cop (C s) = OPeek /\ cret (C s) = [] /\ absq (G s) <> [].
+Proof. apply (witness 2 true sched_peek). vm_compute. repeat split; discriminate. Qed.
+Lemma pusher_holds_freed_address :
+  exists s p, Reach 2 true s /\ pp (P s p) = PCas /\ heap (M s) (lb (P s p)) = None.
+Proof.
+  destruct (witness 2 true aba_1 (fun s => pp (P s 9) = PCas /\ heap (M s) (lb (P s 9)) = None)) as [s [R Q]].
+  - vm_compute. split; reflexivity.
+  - exists s, 9. tauto.
+Qed.
+Lemma aba_reaches_the_cas :
+  exists s p, Reach 2 true s /\ pp (P s p) = PCas /\ cas_ok s p = true /\ gtk (G s) = 4 /\
+              lb (P s p) = badr (G s) 0 /\ badr (G s) 0 = badr (G s) (gtk (G s)).
+Proof.
+  destruct (witness 2 true (aba_1 ++ aba_2) (fun s => pp (P s 9) = PCas /\ cas_ok s 9 = true /\ gtk (G s) = 4 /\
+              lb (P s 9) = badr (G s) 0 /\ badr (G s) 0 = badr (G s) (gtk (G s)))) as [s [R Q]].
+  - vm_compute. repeat split.
+  - exists s, 9. tauto.
+Qed.
+Lemma life_reaches_dead :
+  exists s, Reach 2 true s /\ cp (C s) = CDead /\ popped (G s) = [11; 12; 13; 14; 15; 16; 17] /\ nalloc (G s) = 5.
+Proof. apply (witness 2 true sched_life). vm_compute. repeat split. Qed.
